@@ -54,7 +54,7 @@ def gen_cfgs(rng, n):
     for i in range(n):
         pi = ["nonparametric", "gaussian", "bootstrap", "gaussian"][i % 4]
         so = rng.choice(subsets) if rng.random() < 0.9 else None
-        gate = rng.random() < 0.7
+        gate = rng.random() < 0.7 and i % 5 != 0
         aggs = rng.choice([["postal_code", "unit"], ["postal_code"], ["postal_code", "county_fips", "unit"], ["unit", "postal_code"]])
         calls = [{"aggregates": aggs, "save_output": so}]
         if rng.random() < 0.3:
@@ -69,6 +69,10 @@ def gen_cfgs(rng, n):
             "alphas": rng.choice([[0.7], [0.7, 0.9]]), "save_output": so, "calls": calls,
             "params": ({"B": 5, "lambda_": 1.0} if pi == "bootstrap" else {}),
             "features": (["baseline_normalized_margin"] if pi == "bootstrap" else []),
+            # the baseline is not handed over in memory: the client reads it from remote storage (reading is not persisting)
+            "pre_from_s3": (i % 3 == 1) or rng.random() < 0.2,
+            # a feed without rows yet (zero-row frame / header-only list of lists): too few units, the live results are still saved
+            "feed": (["empty-frame", "header-only"][i % 2] if (not gate and (i % 5 == 0 or rng.random() < 0.3)) else "full"),
         })
     return cfgs
 
@@ -100,6 +104,8 @@ def explore(run, driver, budget):
         run.case(case, any(c["save_output"] for c in cfg["calls"]))
         run.count("env " + cfg["app_env"])
         run.count(cfg["pi"])
+        run.count("feed " + cfg.get("feed", "full"))
+        run.count("baseline " + ("read from remote storage" if cfg.get("pre_from_s3") else "passed in memory"))
         if "child_error" in out:
             run.broken.append("child process failed: " + out["child_error"][-300:])
             continue
